@@ -1,4 +1,5 @@
 import DriverFS.Str
+import DriverFS.FP
 /-! Line-protocol driver for the FS family (strings, floating point, model-value extraction): one request per line,
 first token selects the handler.  Imports only core-Lean model files under Claripy/ (never Mathlib). -/
 
@@ -7,6 +8,8 @@ def dispatch (line : String) : String :=
   | "str" :: args => DriverFS.Str.handleModel args
   | "spec" :: args => DriverFS.Str.handleSpec args
   | "codec" :: args => DriverFS.Str.handleCodec args
+  | "fp" :: args => DriverFS.FP.handleFold args
+  | "fpspec" :: args => DriverFS.FP.handleSpec args
   | _ => "bad-op"
 
 partial def loop (h : IO.FS.Stream) (out : IO.FS.Stream) : IO Unit := do
